@@ -1291,7 +1291,7 @@ def _emitter_samples(ctx):
                decl("StaticMethod", "make", [D, ("scale", "double", (), None), ("s", "K", ("ns",), "ns::K( 1,  2 )")]), decl("StaticMethod", "make", [])]
     # (`s` is left out at arity 2 and its name occurs inside the supplied `scale`: names are compared whole)
     # the class has an enum `Mode` of its own and takes, besides it, the enum of the same name that another class declares
-    cls["enums"] = [SampleObj(__kind__="Enum", name="Mode", parent=cls)]
+    cls["enums"] = [SampleObj(__kind__="Enum", name="Mode", parent=cls, enumerators=[SampleObj(__kind__="Enumerator", name="Fast"), SampleObj(__kind__="Enumerator", name="Slow")])]
     EO, EK = ("m", "Mode", ("ns", "Other"), None), ("m", "Mode", ("ns", "K"), None)
     statics += [decl("StaticMethod", "spick", [EO], ret="void")]
     meths = [decl("Method", "at", [("i", "size_t", (), None)]), decl("Method", "size", [], ret="size_t"), decl("Method", "span", [D], ret=("double", "size_t")),
@@ -1410,6 +1410,8 @@ def rule_call_sites_by_evaluation(ctx, rep: Report, rid="I10", returns=False, gu
         rep.add(rid, f"{which}:each branch passes the id registered for its own overload", not probs and bool(seen_ids),
                 f"{probs[:3]}: the `case` that the branch reaches runs the routine of another overload (argument count, unwrapping and call belong to "
                 f"that one), or of none", f"{ci.mod.rel}:{fn.lineno}")
+    if (guards or returns) and len(runs) < (4 if guards else 3):
+        raise AnalysisError(f"{rep.prop}/{rid}: only {[w_ for w_, *_ in runs]} of the .m emitters could be evaluated")
     if guards:
         rep.add(rid, "the class test of a parameter of class or enum type names the MATLAB class of the declared type", not guard_probs,
                 f"{guard_probs[:4]}: a value of the declared type is turned away by the .m file, and a value of the other class is let through and read "
@@ -1739,9 +1741,8 @@ def rule_class_file_named_after_the_class(ctx, rep: Report, rid="I13"):
                 if got_name != name:
                     probs.append(f"{what} is declared as a classdef named with {len(str(got_name))} characters")
     except (_PathEval.Unknown, _Raised, TypeError, KeyError, IndexError) as e:
-        rep.add(rid, "the class file and the classdef carry the class's name", True, f"not evaluable ({str(e)[:80]})", loc, nontrivial=False)
-        rep.units["class_file_names_evaluated"] = 0
-        return
+        # nothing else decides this obligation: an emitter the interpreter cannot follow is reported as such, not passed over
+        raise AnalysisError(f"{rep.prop}/{rid}: wrap_instantiated_class could not be evaluated for the class name ({str(e)[:80]})")
     rep.units["class_file_names_evaluated"] = ran
     rep.add(rid, "the class file and the classdef carry the class's name", not probs,
             f"{sorted(set(probs), key=probs.index)[:3]}: the rest of the toolbox names the class in full (guards, constructors of returned objects, base lists), and two "
@@ -1890,8 +1891,7 @@ def rule_registry_keeps_every_class(ctx, rep: Report, rid="T21"):
         for x in (a, b, c, a, d):
             mini_exec(fn, dict(zip(ps, [me, x])), budget=4000, methods=methods)
     except (_PathEval.Unknown, _Raised, TypeError, KeyError, IndexError) as e:
-        rep.add(rid, label, True, f"not evaluable ({str(e)[:60]})", loc, nontrivial=False)
-        return
+        raise AnalysisError(f"{rep.prop}/{rid}: add_class could not be evaluated ({str(e)[:60]})")
     got = me.get("classes")
     names = [f"{x['parent']['name']}::{x['name']}" for x in got] if isinstance(got, list) and all(isinstance(x, dict) for x in got) else got
     ok = isinstance(got, list) and len(got) == 4 and all(x is y for x, y in zip(got, (a, b, c, d)))
@@ -1976,6 +1976,8 @@ def rule_returned_enum_by_evaluation(ctx, rep: Report, rid="M20"):
         elif m_.group(1) != want:
             probs.append(f"{what}: wrapped as '{m_.group(1)}', the declared enum is {want}")
     rep.units["returned_enum_cases_evaluated"] = ran
+    if ran == 0:
+        raise AnalysisError(f"{rep.prop}/{rid}: _collector_return could not be evaluated on any sample")
     if ran < len(cases):
         rep.add(rid, "returned enums:by evaluation", True, f"{ran} of {len(cases)} cases evaluable", loc, nontrivial=False)
     if ran:
